@@ -23,12 +23,19 @@
     stream will yield untouched: whatever tokens the parser would have read before
     `get_doxygen()` / `get_doxygen_after()`, it reads the same ones afterwards.
   Attachment per declaration kind: correspondence `parse[doxygen]` + oracle (named; not proof).
+  * `C11_variable_doc` (`Theorems/TopLevel.lean`; the statement of `C01_toplevel_variable` read for its
+    documentation part): through one iteration of the parse loop, a variable declaration
+    `T ptr-ops x ;` gets as doxygen exactly the text `get_doxygen` found before it when there is
+    one (`d = some dd → dox = some dd`), otherwise what the trailing scan finds; the callback is
+    the only one delivered, and the iteration hands NO doc text to the next declaration
+    (`.inl none`) — a doc block is never attributed twice.
 -/
 import CxxModel.TokStream
 import CxxModel.Tables
 import CxxModel.GenCfg
 import CxxModel.Theorems.DoxNeutral
 import CxxModel.Theorems.SigEq
+import CxxModel.Theorems.TopLevel
 namespace Cxx
 
 /-- comment tokens of a list that come after its last NEWLINE token -/
@@ -163,5 +170,35 @@ theorem C11_doc_scans_preserve_tokens (mcRe : Re) (b : Buf) (t : Tok) (ts : List
     (∃ b1', Yields genLexCfg (getDoxygenAfter mcRe b).2 (t :: ts) b1' ∧ SigEq b' b1') := by
   refine ⟨fun d b1 hd => Yields.after_getDoxygen gen_rules_progress hd hy, ?_⟩
   exact Yields.sigEq hy (getDoxygenAfter_sigEq mcRe b).symm
+
+section
+open P
+
+theorem C11_variable_doc (env : Env) (hc : env.cfg = genLexCfg) (F D : Nat) (w : World)
+    (first : Tok) (pairs : List (Tok × Tok)) (ops : List Tok) (x semi : Tok) (d1 : DType) (b1 b0 bmid bx b' : Buf)
+    (blk : Block) (rest : List Block) (hstack : w.stack = blk :: rest) (hk : blk.hdr.kind ≠ .cls)
+    (hmu : w.muted = false) (hfa : ¬ env.faultAt = some w.delivered)
+    (htok : tokenEofOk env.cfg w.buf = .ok (some first, b1))
+    (hty : first.type = "NAME") (htv : identVal first.value = true)
+    (hall : ∀ p ∈ pairs, p.1.type = "DBL_COLON" ∧ p.2.type = "NAME" ∧ plainVal p.2.value = true)
+    (hy0 : Yields env.cfg b1 (pairs.flatMap (fun p => [p.1, p.2])) b0)
+    (hops : opsHeadOk ops = true) (hopsv : ∀ o ∈ ops, o.value ≠ "auto")
+    (hy : Yields env.cfg b0 ops bmid)
+    (ha : applyPtrOps (.type (.mk (.name first.value none :: pairs.map (fun p => .name p.2.value none)) none false) false false)
+      (ops.map (·.type)) = some d1)
+    (htx : tokenEofOk env.cfg bmid = .ok (some x, bx)) (hx : x.type = "NAME") (hxv : identVal x.value = true)
+    (hsemi : tokenEofOk env.cfg bx = .ok (some semi, b')) (hs : semi.type = ";")
+    (hF : pairs.length + ops.length + 2 ≤ F) :
+    ∃ (d : Option String) (bD : Buf) (w7 : World) (ct : CTok) (dox : Option String) (ev : Event),
+      getDoxygen env.cfg env.mcRe w.buf = .ok (d, bD) ∧
+      interp env (mainBody F (core F (D + 1 + 1)) none) w = (w7, .ok (.inl none)) ∧
+      SigEq b' w7.buf ∧ ct.value = first.value ∧ w7.stack = { blk with loc := .tok ct.sidx } :: rest ∧
+      w7.events = w.events ++ [ev] ∧ ev.kind = .item (.variable (plainVariable x d1 dox)) ∧
+      ev.stateId = blk.id ∧ ev.parentId = rest.head?.map (·.id) ∧ (∀ dd, d = some dd → dox = some dd) ∧
+      w7.delivered = w.delivered + 1 ∧ w7.anon = w.anon ∧ w7.muted = false ∧ w7.nextId = w.nextId :=
+  toplevel_variable env (by rw [hc]; exact gen_rules_progress) F D w first pairs ops x semi d1 b1 b0 bmid bx b' blk rest hstack hk hmu hfa
+    htok hty htv hall hy0 hops hopsv hy ha htx hx hxv hsemi hs hF
+
+end
 
 end Cxx
